@@ -90,7 +90,7 @@ theorem status_ne_notCreated_stable (P : Prog) (s s' : State) (t k : Nat) (h : s
     | exit _ h1 => rw [h1]; simp
     | cb c _ _ h1 => rw [h1]; simp
     | atexitDone _ _ _ h1 => rw [h1]; simp
-  · rcases step_other P s s' t h k hkt with h1 | h1 | ⟨_, _, h1⟩ | ⟨_, h1⟩ <;> rw [h1] <;> simp [hk]
+  · rcases step_other P s s' t h k hkt with h1 | h1 | ⟨_, _, _, h1⟩ | ⟨_, h1⟩ <;> rw [h1] <;> simp [hk]
 
 structure JoinInv (P : Prog) (s : State) : Prop where
   snap : ∀ t k, k ∈ (s.th t).rSnap → P.managed k = true ∧ (s.th k).status ≠ .notCreated ∧ k < P.n
@@ -104,7 +104,7 @@ theorem joinInv_init (P : Prog) : JoinInv P (init P) := by
   · simp [init] at hm
 
 theorem otherRel_snap {s : State} {k : Nat} {a b : Th} (h : OtherRel s k a b) : b.rSnap = a.rSnap ∨ b.rSnap = [] := by
-  rcases h with rfl | rfl | ⟨_, _, rfl⟩ | ⟨_, rfl⟩ <;> simp
+  rcases h with rfl | rfl | ⟨_, _, _, rfl⟩ | ⟨_, rfl⟩ <;> simp
 
 theorem joinInv_thr (P : Prog) (s s' : State) (t : Nat) (h : step P s t = some s') (hc : CountInv P s)
     (hi : JoinInv P s) : JoinInv P s' := by
